@@ -205,11 +205,13 @@ class Rig:
             recs.pop()
         return [(r[:1], r[1:]) for r in recs]
 
-    def collect(self, ids, timeout=20.0):
+    timeout = 20.0
+
+    def collect(self, ids, timeout=None):
         """Wait until the messages are preprocessed and every T record has been offered for delivery once."""
         todo = set(ids)
         files = {}
-        deadline = time.time() + timeout
+        deadline = time.time() + (timeout or self.timeout)
         ok = True
         while True:
             self._pump(0.002)
@@ -274,14 +276,12 @@ class Rig:
 
 
 def run_case(rig, case):
-    """-> list of records (one per message)."""
+    """-> list of records (one per message; all text latin-1 strings; see tlc_record)."""
     recs = []
-    hist = []
     rig.reset()
     try:
         for pi, ph in enumerate(case["phases"]):
             write_controls(rig.root, ph["cfg"])
-            hist = hist + [{"k": ph["k"], "c": cfg_record(ph["cfg"])}]
             if pi > 0 and ph["k"] == "hup":
                 if not rig.hup():
                     raise RuntimeError("HUP not seen to be handled")
@@ -294,10 +294,9 @@ def run_case(rig, case):
             for mi, (mid, m) in enumerate(zip(ids, ph["msgs"])):
                 o = res[mid]
                 odd = [t for t, _ in o["lo"] + o["re"] if t != b"T"]
-                recs.append({"case": case["id"], "ph": pi, "mi": mi, "hist": hist, "snd": codes(m["snd"]),
-                             "rc": [codes(r) for r in m["rc"]],
-                             "lo": [list(a) for _, a in o["lo"]], "re": [list(a) for _, a in o["re"]],
-                             "dl": [{"ch": c, "s": list(s), "r": list(r)} for c, s, r in o["dl"]],
+                recs.append({"case": case["id"], "ph": pi, "mi": mi, "snd": m["snd"], "rc": list(m["rc"]),
+                             "lo": [a.decode("latin-1") for _, a in o["lo"]], "re": [a.decode("latin-1") for _, a in o["re"]],
+                             "dl": [[c, s.decode("latin-1"), r.decode("latin-1")] for c, s, r in o["dl"]],
                              "ok": 1 if o["ok"] and not odd else 0})
     finally:
         rig.stop()
@@ -350,9 +349,8 @@ def seam_case(exe, workdir, case):
     if p.returncode != 0:
         raise RuntimeError("seam harness exit %s: %s" % (p.returncode, p.stderr.decode(errors="replace")[-300:]))
     out = iter(p.stdout.decode().split("\n"))
-    recs, hist = [], []
+    recs = []
     for pi, ph in enumerate(case["phases"]):
-        hist = hist + [{"k": ph["k"], "c": cfg_record(ph["cfg"])}]
         if pi == 0:
             if next(out) != "g 1":
                 raise RuntimeError("getcontrols() failed")
@@ -367,11 +365,19 @@ def seam_case(exe, workdir, case):
                     raise RuntimeError("seam protocol: %r" % (f,))
                 if f[1] == "0":
                     continue            # out of memory: the record is missing, TLC will say so
-                (lo if f[1] == "1" else re_).append(list(unhx(f[2])))
-                dl.append({"ch": 0 if f[1] == "1" else 1, "s": list(unhx(f[3])), "r": list(unhx(f[2]))})
-            recs.append({"case": case["id"], "ph": pi, "mi": mi, "hist": hist, "snd": codes(m["snd"]), "rc": [codes(r) for r in m["rc"]],
+                rw = unhx(f[2]).decode("latin-1")
+                (lo if f[1] == "1" else re_).append(rw)
+                dl.append([0 if f[1] == "1" else 1, unhx(f[3]).decode("latin-1"), rw])
+            recs.append({"case": case["id"], "ph": pi, "mi": mi, "snd": m["snd"], "rc": list(m["rc"]),
                          "lo": lo, "re": re_, "dl": dl, "ok": 1, "seam": 1})
     return recs
+
+
+def tlc_record(r, case):
+    """What spec/RewriteRec.tla reads: text as arrays of character codes."""
+    return {"hist": [{"k": ph["k"], "c": cfg_record(ph["cfg"])} for ph in case["phases"][:r["ph"] + 1]],
+            "snd": codes(r["snd"]), "rc": [codes(x) for x in r["rc"]], "lo": [codes(x) for x in r["lo"]],
+            "re": [codes(x) for x in r["re"]], "dl": [{"s": codes(s), "r": codes(x)} for _, s, x in r["dl"]]}
 
 
 def main():
@@ -379,21 +385,31 @@ def main():
     for s in (signal.SIGTERM, signal.SIGINT, signal.SIGHUP):
         signal.signal(s, signal.SIG_DFL)
     rig = Rig(job["src"], job["root"], job["ids"], job.get("split", 3))
+    slow = 0          # cases that were not completely preprocessed in time (a damaged qmail-send may hang)
     with open(job["out"], "w") as f:
         for case in job["cases"]:
-            err = None
-            for attempt in range(2):
+            if slow >= 8:
+                f.write(json.dumps({"case": case["id"], "skipped": 1}) + "\n")
+                continue
+            rig.timeout = 20.0 if slow < 2 else 4.0
+            attempts = 2 if slow < 2 else 1
+            err, recs = None, []
+            for attempt in range(attempts):
                 try:
                     recs = run_case(rig, case)
                     err = None
-                    if all(r["ok"] for r in recs) or attempt == 1:
+                    if all(r["ok"] for r in recs):
                         break
                 except (RuntimeError, OSError) as e:       # machinery trouble: once more, then report
                     err = "%s: %s" % (type(e).__name__, e)
                     recs = []
                     rig.stop()
-            if err:
+            if err or not all(r["ok"] for r in recs):
+                slow += 1
+            if err and slow < 3:
                 f.write(json.dumps({"case": case["id"], "error": err}) + "\n")
+            elif err:
+                f.write(json.dumps({"case": case["id"], "skipped": 1}) + "\n")
             for r in recs:
                 f.write(json.dumps(r, separators=(",", ":")) + "\n")
             f.flush()
